@@ -15,10 +15,10 @@ CLAIMED = {
         "lexer; strconv contracts assumed; Go harness + comparison script trusted.",
    technique="Lean 4 proof over a hand-written model + differential correspondence with the Go implementation", design="§4 C11"),
  "C09": dict(
-   text="Lean proof, for every width other than i1, every integer and BOTH outcomes of the hex/decimal heuristic, that NewIntFromString(Ident(x)) = x; "
-        "every accepted spelling (signed decimal, u0x upper/lower, s0x two's complement = BitVec.toInt, true/false) denotes the correct value. i1 is "
-        "partial (x in {0,1}); the negation at i1 -1 is proved and recorded as a known finding. Model tied to the code by differential runs of Ident, "
-        "NewIntFromString and asm.ParseString, including the floating-point heuristic's decisions.",
+   text="Lean proof, for EVERY width (i1 included, after the fix commit for i1 -1), every integer and BOTH outcomes of the hex/decimal heuristic, that "
+        "NewIntFromString(Ident(x)) = x; every accepted spelling (signed decimal, u0x upper/lower, s0x two's complement = BitVec.toInt, true/false) denotes "
+        "the correct value. Model tied to the code by differential runs of Ident, NewIntFromString and asm.ParseString, including the floating-point "
+        "heuristic's decisions, and a round-trip oracle on every generated (width, value).",
    note="Lean kernel + propext/Quot.sound/Classical.choice; model LlirModel/IntLit.lean, Digits.lean hand-written; math/big contracts assumed; harness trusted.",
    technique="Lean 4 proof over a hand-written model + differential correspondence with the Go implementation", design="§4 C09"),
  "C20": dict(
@@ -56,9 +56,10 @@ CLAIMED = {
    note="Lean kernel + propext/Quot.sound; resultIR/resultAsm hand-written; LLVMSpec is a trusted transcription of the LangRef; 25 representative kinds.",
    technique="Lean 4 proof over a hand-written model + differential correspondence with the Go implementation", design="§4 C06"),
  "C07": dict(
-   text="Lean model of gep.ResultType and of the three getIndex classifiers; proofs that parser, instruction constructor and constant-expression constructor agree on all "
-        "'tame' index lists (any length), plus kernel-checked NEGATIONS of the full statement at three witnesses (scalable base, vector zeroinitializer index, constant-"
-        "expression index in text) that are recorded as known findings. Partial: agreement with LLVMSpec.gepType is established by correspondence + oracle, not yet by theorem.",
+   text="Lean model of gep.ResultType (with scalability), of the three getIndex classifiers and of the index-type check; theorem inst_eq_llvm: for every base, element type, "
+        "nesting depth and index list of well-formed, length-consistent operands (constants of every form, non-constants, fixed and scalable vectors, inrange) the instruction "
+        "constructor returns exactly LLVMSpec.gepType and panics exactly where that is undefined; parser_eq_inst / expr_eq_inst: the parser and the constant-expression "
+        "constructor agree with it on ALL index lists they can receive; the three formerly failing inputs (repaired by fix commits) are kept as regression theorems.",
    note="Lean kernel + propext/Quot.sound; model LlirModel/Gep.lean hand-written; LLVMSpec.gepType trusted transcription; identified-struct environment fixed by the harness.",
    technique="Lean 4 proof over a hand-written model + differential correspondence with the Go implementation", design="§4 C07"),
  "C08": dict(
@@ -92,8 +93,8 @@ CLAIMED = {
  "C05": dict(
    text="Lean proof over M-Resolve that an undefined reference (type, comdat, global entity, metadata ID, local, label) or a duplicated definition makes translation fail for "
         "every visiting order, that the undefined attribute group is accepted, and that the only outcomes are module or error. Tied by single-point fault injection on "
-        "generated modules (text and skeleton mutated together): model and parser must agree and the oracle demands error, never ok or panic. Two panics on the unchanged "
-        "tree are recorded findings.",
+        "generated modules (text and skeleton mutated together): model and parser must agree and the oracle demands error, never ok or panic. One panic on the unchanged "
+        "tree (typed attribute on an undefined type) is a recorded finding; the alias-to-undefined-type panic was repaired by a fix commit.",
    note="Lean kernel + propext/Quot.sound; M-Resolve hand-written; fault injector in vlib/modgen.py trusted.", technique=T, design="§4 C05"),
  "C12": dict(
    text="Lean proof over M-Resolve that acceptance and the resolved module are independent of the order in which the translator's maps are iterated, and that sorted definition "
